@@ -11,72 +11,7 @@ BUS = ("Trusts the program generator/TransactionBuilder to produce valid transac
        "single-stepping as the observation point (each stepped run is paired with a plain run and discarded "
        "if they differ), and the harness transcription of the instruction-set rules.")
 
-# id -> (technique, level text, level note, design ref)
-CLAIMED = {
-    "C01": ("round-trip law monitor over generated protocol values (encode/size/decode equality), reference encoder run alongside",
-            EXPL + "Systematic product of type x variant x vector-length class x policy mask with boundary-biased field values.",
-            "Equality is the types' own PartialEq with the panic reason masked. Six value shapes the wire format cannot express are listed as known findings.", "4/C01"),
-    "C02": ("fuzz-style mutation workload on the real decoders under catch_unwind; oracle = no panic + size()==consumed + decode(encode(v))==v",
-            EXPL + "16 decoder targets x 14 word-replacement values x truncations/bit flips/padding/splices + random strings.",
-            "Abort-class failures (allocation failure, stack overflow) would end the monitor process and are reported as inconclusive, not as a violation; memory reservations are observed, not judged.", "4/C02"),
-    "C03": ("reference-model monitor: id vs sha256(chain_id_be || reference encoding of the harness-normalised tx) + single-field lens table (id changes iff field not malleable) + cached-vs-fresh id",
-            EXPL + "Free-form transactions of all six kinds, every field lens applied to every transaction.",
-            "Malleable-field list transcribed from the property statement; reference encoder refmodel::canon; sha2.", "4/C03"),
-    "C04": ("reference layout walker (hand-written tx format) compared with every offset API, with and without cached metadata, plus decode-at-offset on the library's encoding",
-            EXPL + "Free-form transactions of all kinds with 0..8 inputs/outputs/witnesses in mixed layouts.",
-            "Trusts the reference layout walker refmodel::canon (which agrees byte-for-byte with to_bytes on every generated transaction, checked per case).", "4/C04"),
-    "C06": ("round-trip law monitor over three serde back-ends (JSON, postcard, bincode) + upgrade checksum / UpgradeMetadata reproduction checks",
-            EXPL + "All protocol types, 64 policy masks in both serde layouts, every consensus-parameter / gas-table version built explicitly with boundary values.",
-            "sha2 and the serde back-ends themselves are trusted.", "4/C06"),
-    "C12": ("history monitor: root after every insert/overwrite/delete (storage-backed and in-memory trees) and from_set/root_from_set/nodes_from_set vs an independent compact-SMT recursion over the model map",
-            EXPL + "Adversarially clustered key universes (shared prefixes 0..255 bits, last-bit neighbours, all-zero/all-one keys), histories of 1..80 operations.",
-            "Trusts sha2 and the harness transcription of the compact sparse-Merkle definition quoted in the property.", "4/C12"),
-    "C13": ("crash-point monitor: at every position of a history the node storage is cloned and a tree re-loaded from it, then driven in lock-step with the original and the reference; node-deletion faults; reachability walk over stored nodes",
-            EXPL + "Reload at every history position, empty-root loads, nodes_from_set loads, single-node deletion faults.",
-            "A tree on faulty storage may fail or panic; only a wrong Ok (root/proof disagreeing with the reference) is a violation.", "4/C13"),
-    "C14": ("reference-verifier agreement monitor: proof kind vs model membership, generated proofs verify, ~30 structured proof mutations judged by an independent compact-SMT recomputation",
-            EXPL + "Trees reached by clustered-key histories, queries on present keys, late-bit neighbours and absent keys, mutation catalogue.",
-            "Trusts sha2 and the harness transcription of the compact sparse-Merkle definition.", "4/C14"),
-    "C30": ("recording storage wrapper + step bus: every contract-table access attributed to the executing instruction must target a contract input; predicate runs over a recording storage must not touch contract tables",
-            EXPL + "Generated scripts/contracts calling/transferring/querying listed, unlisted-but-deployed and unknown contract ids.",
-            BUS + " One known finding (CALL reads the target's code size before the input check) is listed in known_findings.jsonl.", "4/C30"),
-    "C07": ("round-trip monitor: compress -> postcard -> decompress against a harness registry context, id equality + field-wise comparison driven by a literal skip table",
-            EXPL + "Sequences of transactions sharing one registry context (key reuse, wrap-around, eviction).",
-            "Trusts UniqueIdentifier::id (judged by C03) and the harness-side context implementation; Coin/Message/Mint decompression is the context's job by design.", "4/C07"),
-    "C08": ("exhaustive sweep of all 2^32 words and all constructor argument tuples against a hand-written opcode/shape table (thorough); structured 2^26 slice (quick)",
-            EXPL + "Thorough tier enumerates the finite space completely (exhaustive: true); quick tier is a structured slice.",
-            "Trusts the hand-written opcode table in the monitor (cross-read against the instruction set).", "4/C08"),
-    "C09": ("reference-model monitor: every root produced by the binary-Merkle implementations compared with an independent RFC 6962 MTH on generated leaf streams",
-            EXPL + "Roots of all prefixes of 16 leaf streams (dense) plus powers of two +-1 and random big counts.",
-            "Trusts sha2 and the harness transcription of RFC 6962 section 2.1.", "4/C09"),
-    "C10": ("reference-model monitor: produced proofs compared with RFC 6962 PATH; binary::verify compared with a reference audit-path verifier on 39 mutation operators and constructed u64-boundary tuples",
-            EXPL + "Exhaustive (n,i) for small n, sampled big n, structured mutations; verdict = agreement with the reference verifier.",
-            "Trusts sha2 and the harness transcription of RFC 6962 (MTH, PATH, audit-path verification).", "4/C10"),
-    "C11": ("history monitor: push/reset/root/prove/leaves_count/load histories on both tree implementations checked step by step against a Vec-of-leaves model + RFC 6962 reference",
-            EXPL + "Random histories of 1..60 operations incl. reset and reload at recorded counts, probes at and beyond the leaf count.",
-            "load is only judged at leaf counts recorded since the last reset (as the property says).", "4/C11"),
-    "C16": ("differential monitor: every case through both secp256k1 back-ends in one build (hook H1), results must be equal; valgrind memcheck on the libsecp256k1 half in the thorough tier",
-            EXPL + "Deterministic sweep of (r class x s class x parity x message class), mutated valid signatures, malformed public keys, plus random mix.",
-            "Both back-ends are compared inside one std build through the verif-hooks re-export; a genuine no_std build of the workspace is not executed.", "4/C16"),
-    "C17": ("algebraic-consistency monitor (sign/recover/verify laws), Ed25519 vs ed25519-dalek verify_strict called directly, VM opcodes vs library calls",
-            EXPL + "Keys {1,2,n-1,random} x messages, 12 signature mutations, 27 Ed25519 classes over message lengths 0..300, ECK1/ECR1/ED19 scripts.",
-            "Trusts k256/p256/ed25519-dalek called directly as references and the harness 256-bit helper arithmetic.", "4/C17"),
-    "C18": ("event log + offline Python big-integer oracle for the fee/refund formulas; into_ready verdict judged directly",
-            EXPL + "All five chargeable kinds x boundary-biased prices/factors/tips/limits/used gas x four gas schedules, regimes around u64 saturation and the fee limit.",
-            "The oracle checks the fee formulas from the gas amounts the library reports (the gas schedule itself is not recomputed); min(2^64-1, min_gas+used) is taken as the gas amount.", "4/C18"),
-    "C21": ("single-instruction bench + event log + offline Python big-integer oracle of the ALU semantics",
-            EXPL + "33 mnemonics, boundary x boundary operands, all flag values, reserved/aliased destinations, NIOP 8-bit exhaustive in thorough.",
-            "Oracle is a transcription of the instruction-set semantics in Python integers; corners whose specification is uncertain are counted, not judged (listed in DESIGN.md).", "4/C21"),
-    "C22": ("single-instruction bench with memory operands + event log + offline Python big-integer oracle of the wide-integer semantics",
-            EXPL + "All 14 WD/WQ opcodes x all 64 immediates x flags x operand/destination placements (owned, un-owned, overlapping, gap).",
-            "Oracle is a transcription of the instruction-set semantics in Python integers (512-bit intermediates).", "4/C22"),
-    "C25": ("online step-trace checker on the step bus: reference next-$pc in unbounded arithmetic vs observed landing address for every single-stepped instruction",
-            EXPL + "Generated scripts/contracts with loops, JAL subroutines and wild jumps; millions of monitored steps.",
-            BUS, "4/C25"),
-    "C32": ("differential runs: single-stepped and breakpointed executions resumed to completion vs plain run; event-location and no-repeat checks on every debug event",
-            EXPL + "Generated scripts/contracts, random breakpoint sets inside scripts and contracts.",
-            BUS, "4/C32"),
-}
+CLAIMED = {k: (v["technique"], v["text"], v["note"], v["ref"]) for k, v in json.load(open(os.path.join(ROOT, "tools", "claims.json"))).items()}
 
 NOT_YET = "monitor not built yet in this revision (work in progress; design in DESIGN.md section 4)"
 
